@@ -24,6 +24,9 @@ class Stall(Exception):
     pass
 
 
+TOTAL = [0]
+
+
 class Src:
     def __init__(self, kind, *a):
         self.kind, self.a = kind, a
@@ -71,6 +74,7 @@ class Src:
             pulled = 0
             for x in g:
                 pulled += 1
+                TOTAL[0] += 1                  # every source, also the second one of zip / add
                 if counter is not None:
                     counter[0] += 1
                 if pulled > 4000:
@@ -285,12 +289,12 @@ class C16(PropertyCheck):
         for i in range(n_pipes):
             src = gen_src(rng)
             ops = []
+            # "not certainly finite": a take(n) over a filter that stops matching still never ends when consumed eagerly,
+            # so only range sources (and chains / zips of them) count as finite for the eager operations
             inf = src.infinite()
             for _ in range(rng.choice([1, 2, 3, 3, 4, 5, 6, 8, 10])):
                 o = gen_op(rng, inf)
                 ops.append(o)
-                if o.kind in ('take', 'takewhile'):
-                    inf = False if o.kind == 'take' else inf
                 if o.kind == 'chain' and o.a[0].infinite():
                     inf = True
                 if o.kind == 'zipadd' and not o.a[0].infinite():
@@ -299,6 +303,7 @@ class C16(PropertyCheck):
             ops.append(Op('take', n))
             # python lazy reference: values and source pulls (with a stall guard)
             counter = [0]
+            TOTAL[0] = 0
             it = src.py(counter)
             for o in ops:
                 it = o.py(it)
@@ -311,7 +316,7 @@ class C16(PropertyCheck):
                         break
             except (RecursionError, Stall):
                 stalled = True
-            if counter[0] > 150:
+            if TOTAL[0] > 150:
                 stalled = True            # the Coq evaluation looks at a prefix of P = 240 source elements: keep well inside it
             if stalled or any(abs(x) > 10 ** 15 for x in ref):
                 continue
